@@ -173,6 +173,26 @@ def analyse(program, fn, role, rep, prop_prefix='', seg_filter=None, keytag='val
     over_acc, over_rej, bad_payload, bad_err, panics = [], [], [], [], []
     acc_parts, rej_parts = [], []
     special = role.special_shape()
+    if role.is_bool:
+        # a boolean validator may return an undecided predicate term: decide it (exact shape refinement) at the return
+        split = []
+        for s in segs:
+            if s.kind == 'return' and s.ret is not None and s.ret[0] != 'int':
+                try:
+                    for bval, st2 in e.decide_bool(s.state, s.ret):
+                        split.append(pxm.Segment(s.src, s.dst, st2, ('int', 1 if bval else 0), s.events, s.kind))
+                except Exception:
+                    split.append(s)
+            else:
+                split.append(s)
+        segs = split
+        inconcl = dict(e.undecided)
+        inconcl.update({'extern ' + k: v for k, v in e.unmodelled.items()})
+        subjs = set()
+        for s in segs:
+            subjs.update(k for k in s.state.shapes if k[0] != 'B1')
+        if len(subjs) == 1:
+            subj = subjs.pop()
     for s in segs:
         S = subject_shape(s.state, subj)
         if s.kind == 'panic':
